@@ -291,6 +291,54 @@ def _wrap0(x):
     return a
 
 
+class SymBytes(Sym):
+    """ndarray.tobytes() of symbolic content (used as a cache key / fingerprint)"""
+    __slots__ = ("items", "dt")
+
+    def __init__(self, items, dt):
+        self.items, self.dt = items, dt
+
+    def _short(self):
+        return f"bytes[{len(self.items)} x {self.dt}]"
+
+    def __len__(self):
+        return len(self.items) * self.dt.itemsize
+
+    def _same(self, o):
+        if not isinstance(o, SymBytes):
+            if isinstance(o, (bytes, bytearray)):
+                raise Unsupported("comparison of a symbolic buffer with concrete bytes")
+            return None
+        if len(self) != len(o):
+            return FALSE
+        if self.dt != o.dt:
+            raise Unsupported("comparison of buffers of different dtypes")
+        cs = []
+        for a, b in zip(self.items, o.items):
+            if isinstance(a, SFloat):
+                cs.append(mk_or(mk_and(a.nan, b.nan), mk_and(mk_not(a.nan), mk_not(b.nan), mk_eq(a.v, b.v))))
+            elif isinstance(a, (STime, SDelta)):
+                raise Unsupported("buffer comparison of time values")
+            elif isinstance(a, SInt):
+                cs.append(mk_eq(a.v, b.v))
+            elif isinstance(a, SBool):
+                cs.append(mk_eq(a.b, b.b))
+            else:
+                raise Unsupported("buffer comparison of object values")
+        return mk_and(*cs)
+
+    def __eq__(self, o):
+        r = self._same(o)
+        return NotImplemented if r is None else SBool(r)
+
+    def __ne__(self, o):
+        r = self._same(o)
+        return NotImplemented if r is None else SBool(mk_not(r))
+
+    def __hash__(self):
+        raise Unsupported("hash() of a symbolic buffer (set member / dict key)")
+
+
 class LazyIdx:
     """np.where(cond)[0] + k, kept lazy (DESIGN §3.3)."""
 
@@ -411,6 +459,12 @@ class ndarray:
 
     def tolist(self):
         return self.a.tolist()
+
+    def tobytes(self, order="C"):
+        """the raw buffer as an opaque value: only ==, != (element-wise bit equality; a NaN equals a NaN) are supported"""
+        if self._is_masked:
+            raise Unsupported("MaskedArray.tobytes")
+        return SymBytes(list(self.a.flat), self._dt)
 
     # -- indexing ----------------------------------------------------------------------
     def _norm_index(self, idx):
@@ -1782,8 +1836,57 @@ def diff(x, n=1, axis=-1):
     return subtract(x[1:], x[:-1])
 
 
+def _ufunc_finish(res, a, k, nin):
+    """out= / where= of a ufunc call: store into `out` (through views), element-wise under `where`"""
+    k = dict(k)
+    out = k.pop("out", None)
+    where = k.pop("where", True)
+    if len(a) > 1 or (a and out is not None):
+        raise Unsupported("ufunc called with extra positional arguments")
+    if a:
+        out = a[0]
+    for kk in list(k):
+        if kk in ("casting", "order", "subok") or (kk == "dtype" and k[kk] is None):
+            k.pop(kk)
+    if k:
+        raise Unsupported(f"ufunc keyword arguments {sorted(k)}")
+    if isinstance(out, tuple):
+        if len(out) != 1:
+            raise Unsupported("ufunc with several outputs")
+        out = out[0]
+    if out is None:
+        if where is not True:
+            raise Unsupported("ufunc where= without out= (uninitialised result elements)")
+        return res
+    if not isinstance(out, ndarray):
+        raise TypeError("return arrays must be of ArrayType")
+    r = res if isinstance(res, ndarray) else asarray(res)
+    rd = r._data_arr() if r._is_masked else r
+    od = out._data_arr() if out._is_masked else out
+    try:
+        src = _np.broadcast_to(rd.a, od.a.shape)
+    except ValueError:
+        raise ValueError(f"non-broadcastable output operand with shape {od.a.shape} doesn't match the broadcast shape {rd.a.shape}")
+    od._note_write()
+    if where is True:
+        for p in _np.ndindex(od.a.shape):
+            od.a[p] = cast_scalar(src[p], od._dt)
+    else:
+        w = where if isinstance(where, ndarray) else asarray(where)
+        wa = _np.broadcast_to((w._data_arr() if w._is_masked else w).a, od.a.shape)
+        for p in _np.ndindex(od.a.shape):
+            c = wa[p]
+            c = c.b if isinstance(c, SBool) else (TRUE if c else FALSE)
+            od.a[p] = ite(c, cast_scalar(src[p], od._dt), od.a[p])
+    if out._is_masked and r._is_masked and r._mask is not None:
+        raise Unsupported("ufunc out= into a masked array from a masked result")
+    return out
+
+
 def _ufunc1(op):
     def f(x, *a, **k):
+        if a or k:
+            return _ufunc_finish(f(x), a, k, 1)
         from . import sympd
         if isinstance(x, sympd.Series):
             return x._wrap(_unary(op, x.values_arr()))
@@ -1823,6 +1926,8 @@ def isinf(x):
 
 def _ufunc2(op):
     def f(x, y, *a, **k):
+        if a or k:
+            return _ufunc_finish(f(x, y), a, k, 2)
         if (isinstance(x, ndarray) and x._is_masked) or (isinstance(y, ndarray) and y._is_masked):
             # ufunc via __array_wrap__: raw data, union of masks
             dx, mx = _mask_parts(x)
